@@ -7,7 +7,9 @@ WT="$1"; PATCH="$2"; OWNER="$3"
 H=/tmp/hm-$(basename "$WT")
 git -C "$WT" checkout -q -- . && git -C "$WT" apply "$PATCH" || { echo "$OWNER PATCH-DOES-NOT-APPLY"; exit 2; }
 mkdir -p "$H"
-rsync -a --delete --exclude target --exclude target-cli /verif/harness/ "$H/"
+# the harness source as COMMITTED (HEAD), not the working tree: results must not depend on edits in progress
+S=$(mktemp -d /tmp/hsrc.XXXXXX); git -C /verif archive HEAD harness | tar -x -C "$S"
+rsync -a --delete --exclude target --exclude target-cli "$S/harness/" "$H/"; rm -rf "$S"
 sed -i "s#\.\./repo-link#$WT#g" "$H/Cargo.toml"
 B=$( (cd "$H" && CARGO_NET_OFFLINE=true cargo build --release --offline 2>&1 | grep -E '^error' -A6 | head -12) )
 if [ -n "$B" ]; then echo "$OWNER HARNESS-DOES-NOT-BUILD $(echo "$B" | tr '\n' ' ' | cut -c1-300)"; git -C "$WT" checkout -q -- .; exit 0; fi
